@@ -146,6 +146,11 @@ func RunCheck(opts CheckOpts) int {
 	for _, le := range eng.loadErrs {
 		fmt.Fprintln(os.Stderr, "govc: contract error:", le)
 	}
+	if len(eng.loadErrs) > 0 {
+		// a contract that does not resolve against the current source is a failed obligation, not a pass
+		fmt.Printf("VIOLATION property=%s replay=%s contract-resolution-failed no-failing-input-found\n", opts.Prop, writeNote(opts, "contract-resolution", strings.Join(eng.loadErrs, "\n")))
+		defer func() {}()
+	}
 	ff, err := loadFindings(filepath.Join(opts.VerifDir, "known_findings.json"))
 	if err != nil {
 		fmt.Fprintln(os.Stderr, "govc:", err)
@@ -468,10 +473,19 @@ func RunCheck(opts CheckOpts) int {
 		fmt.Fprintln(os.Stderr, "govc: no obligations were generated (vacuous check)")
 		return 2
 	}
-	if violations > 0 {
+	if violations > 0 || len(eng.loadErrs) > 0 {
 		return 1
 	}
 	return 0
+}
+
+func writeNote(opts CheckOpts, name, text string) string {
+	dir := filepath.Join(opts.VerifDir, "replays", opts.Prop)
+	os.MkdirAll(dir, 0o755)
+	path := filepath.Join(dir, name+".json")
+	b, _ := json.MarshalIndent(map[string]string{"property": opts.Prop, "obligation": name, "note": text}, "", " ")
+	os.WriteFile(path, b, 0o644)
+	return path
 }
 
 func trustedBase(assumedExt, trusted []string) []string {
